@@ -702,12 +702,18 @@ def run_samples(ctx: C.Ctx) -> None:
     for name, pws in SAMPLES:
         data = open(os.path.join(d, name), "rb").read()
         for pw in pws:
-            raw = PDFDocument(PDFParser(io.BytesIO(data)), password=pw)
+            ctx.case(("sample", name, pw), True, branch="sample:" + name)
+            try:
+                raw = PDFDocument(PDFParser(io.BytesIO(data)), password=pw)
+            except Exception as e:  # noqa: BLE001
+                ctx.fail(C.Failure("a shipped encrypted sample no longer opens with its password",
+                                   {"sample": name, "password": pw}, "document opens", type(e).__name__,
+                                   {"kind": "sample-open"}))
+                continue
             docid, param = raw.encryption
             cfg = cfg_from_param(param, docid)
             key = R.reference_open(cfg, pw)
             handler = raw.decipher.__self__
-            ctx.case(("sample", name, pw), True, branch="sample:" + name)
             if key is None or key != handler.key:
                 ctx.fail(C.Failure("reference key recovery and pdfminer disagree on a shipped sample",
                                    {"sample": name, "password": pw}, key.hex() if key else None,
@@ -718,7 +724,6 @@ def run_samples(ctx: C.Ctx) -> None:
                 ctx.fail(C.Failure("reference reader accepts a wrong password on a shipped sample",
                                    {"sample": name}, None, "opened", {"kind": "sample-key"}))
             # every stream: reference decryption of the stored bytes == what pdfminer hands to the filters
-            undec = PDFDocument(PDFParser(io.BytesIO(data)), password=pw)
             nstreams = 0
             for xref in raw.xrefs:
                 for objid in xref.get_objids():
@@ -745,8 +750,10 @@ def run_samples(ctx: C.Ctx) -> None:
                                                got[-24:].hex(), {"kind": kind, "method": cfg.method, "R": cfg.R}))
                             break
             ctx.branch("sample-streams", nstreams)
-            del undec
-            t = text_impl(data, pw)
+            try:
+                t = text_impl(data, pw)
+            except Exception as e:  # noqa: BLE001
+                t = "EXC:" + type(e).__name__
             if name not in ("encrypted_doc_no_id.pdf", "aes-256-r6.pdf") and t != base_text:
                 ctx.fail(C.Failure("extract_text of a shipped encrypted sample differs from base.pdf",
                                    {"sample": name, "password": pw}, base_text[:60], t[:60], {"kind": "sample-text"}))
